@@ -247,7 +247,7 @@ Qed.
 (* the one-pass computation IS nx.descendants on any topological order *)
 Lemma descb_iff : forall g l r x, topo g l -> (descb g l r x = true <-> reach g r x).
 Proof.
-  intros g l r x Ht. unfold descb. rewrite andb_true_iff, negb_true_iff, Pos.eqb_neq, memb_In, desc_set_spec by exact Ht.
+  intros g l r x Ht. unfold descb, descb_in. rewrite andb_true_iff, negb_true_iff, Pos.eqb_neq, memb_In, desc_set_spec by exact Ht.
   split.
   - intros [Hne [E | [_ Hr]]]; [congruence | exact Hr].
   - intros Hr. split.
@@ -408,6 +408,7 @@ Qed.
 Lemma hoist_loops_perm : forall g l0 rl l e, Permutation (hoist_loops g l0 rl l e) l.
 Proof.
   intros g l0. induction rl as [|r rs IH]; simpl; intros l e; [apply Permutation_refl|].
+  change (descb_in (desc_set g l0 r) r) with (descb g l0 r).
   destruct (hoist_one (descb g l0 r) r l e) as [l' e'] eqn:H.
   eapply perm_trans; [apply IH|].
   replace l' with (fst (hoist_one (descb g l0 r) r l e)) by (rewrite H; reflexivity).
@@ -417,6 +418,7 @@ Qed.
 Lemma hoist_loops_topo : forall g l0 rl l e, topo g l0 -> topo g l -> topo g (hoist_loops g l0 rl l e).
 Proof.
   intros g l0. induction rl as [|r rs IH]; simpl; intros l e H0 Hl; [exact Hl|].
+  change (descb_in (desc_set g l0 r) r) with (descb g l0 r).
   destruct (hoist_one (descb g l0 r) r l e) as [l' e'] eqn:H.
   apply IH; [exact H0|].
   replace l' with (fst (hoist_one (descb g l0 r) r l e)) by (rewrite H; reflexivity).
@@ -429,7 +431,8 @@ Lemma hoist_loops_inversion : forall g l0 rl l e a b,
 Proof.
   intros g l0. induction rl as [|r rs IH]; simpl; intros l e a b H0 Hn Hab Hba.
   - exfalso. eapply prec_asym; eassumption.
-  - destruct (hoist_one (descb g l0 r) r l e) as [l' e'] eqn:H.
+  - change (descb_in (desc_set g l0 r) r) with (descb g l0 r) in Hba.
+    destruct (hoist_one (descb g l0 r) r l e) as [l' e'] eqn:H.
     assert (Hl' : l' = fst (hoist_one (descb g l0 r) r l e)) by (rewrite H; reflexivity).
     assert (Hp : Permutation l' l) by (rewrite Hl'; apply hoist_one_perm).
     assert (Hn' : NoDup l') by (eapply Permutation_NoDup; [apply Permutation_sym; exact Hp | exact Hn]).
@@ -669,7 +672,10 @@ Lemma lifted_indepb_iff : forall g loops pre post, topo g pre ->
   (lifted_indepb g loops pre post = true <->
    forall r x, In r loops -> prec pre r x -> prec post x r -> ~ reach g r x).
 Proof.
-  intros g loops pre post Ht. unfold lifted_indepb. rewrite forallb_forall. split.
+  intros g loops pre post Ht. unfold lifted_indepb. cbv zeta.
+  change (fun r => forallb (fun x => negb (precb pre r x && precb post x r) || negb (descb_in (desc_set g pre r) r x)) pre)
+    with (fun r => forallb (fun x => negb (precb pre r x && precb post x r) || negb (descb g pre r x)) pre).
+  rewrite forallb_forall. split.
   - intros H r x Hr Hrx Hxr Hreach.
     specialize (H r Hr). rewrite forallb_forall in H.
     specialize (H x (proj2 (prec_In _ _ _ Hrx))).
@@ -727,11 +733,13 @@ Lemma inversions_justifiedb_sound : forall g loops pre post, topo g pre ->
   forall a b, prec pre a b -> prec post b a ->
   exists r, In r loops /\ (a = r \/ reach g r a) /\ ~ reach g r b /\ b <> r.
 Proof.
-  intros g loops pre post Ht H a b Hab Hba. unfold inversions_justifiedb in H.
+  intros g loops pre post Ht H a b Hab Hba. unfold inversions_justifiedb in H. cbv zeta in H.
   rewrite forallb_forall in H. specialize (H a (proj1 (prec_In _ _ _ Hab))).
   rewrite forallb_forall in H. specialize (H b (proj2 (prec_In _ _ _ Hab))).
   apply precb_iff in Hab. apply precb_iff in Hba. rewrite Hab, Hba in H. simpl in H.
-  apply existsb_exists in H. destruct H as [r [Hr H]].
+  apply existsb_exists in H. destruct H as [[r D] [Hr H]]. simpl in H.
+  apply in_map_iff in Hr. destruct Hr as [r' [Er Hr]]. inversion Er; subst r' D. clear Er.
+  change (descb_in (desc_set g pre r) r) with (descb g pre r) in H.
   rewrite !andb_true_iff, !negb_true_iff, orb_true_iff in H. destruct H as [[H1 H2] H3].
   exists r. split; [exact Hr|]. split; [|split].
   - destruct H1 as [E | H1]; [left; apply Pos.eqb_eq; exact E | right; apply (descb_iff g pre r a Ht); exact H1].
